@@ -1,7 +1,9 @@
 // Correspondence harness: `harness <layer>` reads request lines on stdin.
 #include "common.h"
 int main(int argc, char** argv) {
-    std::ios::sync_with_stdio(false);
+    // the thread layer keeps the standard streams synchronised: the library reports destructor failures on std::cerr, which
+    // the standard makes safe for concurrent use only while synchronised with stdio
+    if (!(argc >= 2 && std::string(argv[1]) == "thr")) std::ios::sync_with_stdio(false);
     if (argc < 2) { std::fprintf(stderr, "usage: harness <layer>\n"); return 2; }
     std::string layer = argv[1];
     if (layer == "enc") return vh::run_enc(argc - 2, argv + 2);
